@@ -123,3 +123,28 @@ func Test_Replay(t *testing.T) {{
 	}}
 }}'''
     return run_scenario(repo, body, "Test_Replay")
+
+
+def run_rule_text(repo, text, check, extra_imports=()):
+    body = f'''
+func Test_Replay(t *testing.T) {{
+	rec := &recorder{{}}
+	rb := build(t, `{text}`, rec, nil)
+	g := engine.NewGengine()
+	err := g.Execute(rb, true)
+	res, _ := g.GetRulesResultMap()
+	{check}
+}}'''
+    return run_scenario(repo, body, "Test_Replay", imports=extra_imports)
+
+
+@adapter(r"ReturnStatement\)\.Evaluate:ensures:failnoflag|:ensures:failnoflag")
+def failing_return_sets_flag(prop, name, ob, repo, work):
+    return run_rule_text(repo, 'rule "a" begin return 1/0 end',
+                         'if err == nil || len(res) != 0 { t.Fatalf("a failed rule must have no result entry: res=%v err=%v", res, err) }')
+
+
+@adapter(r"RuleEntity\)\.Execute:(recovers:structural|safe:)")
+def rule_panic_escapes(prop, name, ob, repo, work):
+    return run_rule_text(repo, 'rule "a" begin if 1 { x = 2 } end',
+                         'if err == nil { t.Fatalf("non-boolean condition must surface as an error: res=%v", res) }')
